@@ -4,9 +4,20 @@ namespace MaddyVerif.Expect.FuncSkelC15
 /-- (declaration, fingerprint of its normalised text): comments, layout, local names and log/trace statements do not count -/
 def funcs : List (String × String) := [
   ("internal/authz/lookup.go:AuthorizeEmailUse", "dd81c30de13bb7c2"),
+  ("internal/check/authorize_sender/authorize_sender.go:Check.CheckStateForMsg", "7031880a6870106b"),
+  ("internal/check/authorize_sender/authorize_sender.go:Check.Init", "ea5f4371aefb363d"),
+  ("internal/check/authorize_sender/authorize_sender.go:Check.InstanceName", "13d0cff2584d7cf7"),
+  ("internal/check/authorize_sender/authorize_sender.go:Check.Name", "a6f42d1ad17b8732"),
+  ("internal/check/authorize_sender/authorize_sender.go:New", "ae718177ea9e7968"),
+  ("internal/check/authorize_sender/authorize_sender.go:init", "fdf99b2f8548cfab"),
   ("internal/check/authorize_sender/authorize_sender.go:state.CheckBody", "bad3d6ab27502134"),
+  ("internal/check/authorize_sender/authorize_sender.go:state.CheckConnection", "85286509ed709d0e"),
+  ("internal/check/authorize_sender/authorize_sender.go:state.CheckRcpt", "29aa4aa3d146c987"),
   ("internal/check/authorize_sender/authorize_sender.go:state.CheckSender", "b6797fdec0d3ccac"),
+  ("internal/check/authorize_sender/authorize_sender.go:state.Close", "328b2ac1f062eca2"),
   ("internal/check/authorize_sender/authorize_sender.go:state.authzSender", "4d292032593f159c"),
+  ("internal/check/authorize_sender/authorize_sender.go:type Check", "048a0a501c20b47c"),
+  ("internal/check/authorize_sender/authorize_sender.go:type state", "e7fa255474690df7"),
   ("internal/endpoint/smtp/submission.go:Session.submissionPrepare", "b32560a1fe86f8f8")
 ]
 
